@@ -9,3 +9,6 @@ func (v *Variable[K, V]) WheelForVerif() [][]node.Node[K, V] { return v.wheel }
 
 // TimeForVerif is the wheel's current time.
 func (v *Variable[K, V]) TimeForVerif() uint64 { return v.time }
+
+// DueForVerif is the root of the list of timers that were already due when they were scheduled (nil before fix of F23).
+func (v *Variable[K, V]) DueForVerif() node.Node[K, V] { return v.due }
